@@ -672,13 +672,14 @@ func main() {
 		}
 		emit("rnd", in)
 	}
-	// 5. all pairs over a reduced alphabet (thorough only): plain and inside MITM
+	// 5. thorough only: every plain behaviour combination followed by each of a
+	//    representative set of second requests, outside and inside a MITM tunnel
 	if cfg.Thorough() {
-		a := allToks('g', true)
-		for _, x := range a {
-			for _, y := range a {
+		second := []string{"gPOPk", "gEOEk", "gSOPk", "gBOPk", "gHOPk", "gAOPk", "gPOHk", "gPOAk", "gPCPk", "gPNEk", "gPFPk", "gPOPc"}
+		for _, x := range allToks('g', true) {
+			for _, y := range second {
 				emit("pair", []string{"K", x, y, "gPOPk"})
-				if y[4] == 'k' {
+				if x[4] == 'k' {
 					emit("mpair", []string{"K", "mPOPk", x, y})
 				}
 			}
